@@ -1,5 +1,8 @@
 CONSTANTS
   N = 7
+  Budget = 99
+  MaxChD = 4
+  CiMax = 1
   Wide = TRUE
 INIT Init
 NEXT Next
